@@ -126,6 +126,10 @@ func (conn *Conn) recv() {
 			case req.Rc = <-conn.rchan:
 				// a recycled Fcall still carries the type of its previous reply
 				req.Rc.Type = 0
+				if uint32(len(req.Rc.Buf)) > conn.Msize {
+					// allocated before Tversion lowered the msize
+					req.Rc.Buf = req.Rc.Buf[:conn.Msize]
+				}
 			default:
 				req.Rc = NewFcall(conn.Msize)
 			}
